@@ -35,4 +35,24 @@ theorem destination_buildId : destination? (buildId p g sa da) = some da := by
   unfold destination?; rw [isPdu1_buildId p g sa da hp hg hsa hda, ps_buildId p g sa da hp hg hsa hda]; simp
 end
 
+/-- a broadcast (PDU2) parameter group -/
+def Pdu2Group (g : Nat) : Prop := 61440 ≤ g ∧ g < 65536
+
+theorem buildId_pdu2 (p g sa da : Nat) (hg : Pdu2Group g) :
+    buildId p g sa da = (min p 7) * 67108864 + g * 256 + sa := by
+  unfold Pdu2Group at hg; unfold buildId
+  have : ¬ g / 256 % 256 < 240 := by omega
+  simp [this]
+
+theorem pgn_buildId2 (p g sa da : Nat) (hg : Pdu2Group g) (hsa : sa < 256) : pgn (buildId p g sa da) = g := by
+  rw [buildId_pdu2 p g sa da hg]; unfold Pdu2Group at hg
+  have hpf : pf ((min p 7) * 67108864 + g * 256 + sa) = g / 256 := by unfold pf; omega
+  have hps : ps ((min p 7) * 67108864 + g * 256 + sa) = g % 256 := by unfold ps; omega
+  unfold pgn isPdu1; rw [hpf, hps]
+  have : ¬ g / 256 < 240 := by omega
+  simp [this]; omega
+
+theorem source_buildId2 (p g sa da : Nat) (hg : Pdu2Group g) (hsa : sa < 256) : source (buildId p g sa da) = sa := by
+  rw [buildId_pdu2 p g sa da hg]; unfold source; omega
+
 end Glonax.J1939
